@@ -410,8 +410,26 @@ pub fn g_syndrome_pattern() -> BoxedStrategy<RsCase> {
             let nz = |i: usize| if vals[i % 80] == 0 { 1 } else { vals[i % 80] };
             let j = pick(jsel, k); // 0-based syndrome index
             let mut target = vec![0u8; k];
-            let pattern = pick(psel, 12);
+            let pattern = pick(psel, 14);
             match pattern {
+                12 | 13 => {
+                    // syndromes of v <= t errors of which at least one sits at a *virtual* location of the
+                    // shortened code (locator 2^j with j >= n, first of all j = n): a decoder must notice
+                    // that the location lies outside the block instead of indexing with it
+                    let v = if pattern == 12 { 1 } else { 1 + pick(raws[197], t.max(1)) };
+                    for e in 0..v {
+                        let j = if e == 0 {
+                            [n, n, n + 1, 254, n + pick(raws[196], 255 - n)][pick(raws[195], 5)].min(254)
+                        } else {
+                            pick(raws[(e + 20) % 200], 255)
+                        };
+                        let x = gf::pow(2, j);
+                        let val = nz(e + 3);
+                        for (m, tm) in target.iter_mut().enumerate() {
+                            *tm ^= gf::mul(val, gf::pow(x, m + 1));
+                        }
+                    }
+                }
                 9 | 10 | 11 => {
                     // LFSR sequence with ONE innovation: the syndromes follow the recurrence of v genuine
                     // error locators everywhere except that relation r is broken once (S_r gets an extra
